@@ -395,7 +395,7 @@ func init() {
 		}
 		// (2) objects: every sequence of up to 3 members from the member alphabet, random longer ones
 		members := []string{`"value":1`, `"value":7`, `"VALUE":2`, `"Value":18446744073709551615`, `"value":-1`, `"value":1.5`, `"value":"1"`, `"value":{"a":1}`, `"value":null`, `"value":18446744073709551616`,
-			`"value":18447`, `"value":19`, `"unit":"PB"`, `"unit":"EB"`, `"unit":"KiB"`, `"unit":"B"`, `"UNIT":"kB"`, `"Unit":"EiB"`, `"unit":"XB"`, `"unit":1`, `"unit":["B"]`, `"unit":null`, `"unit":""`,
+			`"value":18447`, `"value":19`, `"value":1e3`, `"value":10.0`, `"value":9007199254740993.0`, `"unit":"PB"`, `"unit":"EB"`, `"unit":"KiB"`, `"unit":"B"`, `"UNIT":"kB"`, `"Unit":"EiB"`, `"unit":"XB"`, `"unit":1`, `"unit":["B"]`, `"unit":null`, `"unit":""`,
 			`"x":1`, `"y":"s"`, `"z":null`, `"n":{"value":9,"unit":"GB","d":[1,[2,[3,{"e":{}}]]]}`, `"a":[1,{"unit":"B"},[[]]]`, `"valu":1`, `"units":"B"`, `"":0`, `"value":3`}
 		ser := func(ms []string, style int) string {
 			switch style % 4 {
@@ -416,7 +416,7 @@ func init() {
 				objs = append(objs, []string{a, b})
 			}
 		}
-		core := members[:23]
+		core := members[:26]
 		for _, a := range core {
 			for _, b := range core {
 				for _, c := range members {
